@@ -77,6 +77,24 @@ func zzAcceptParam(accept, key string) (string, bool) {
 	return "", false
 }
 
+// zzSetParam: Set semantics (a later capture under the same name overwrites).
+func zzSetParam(ps []rparam, k, v string) []rparam {
+	out := make([]rparam, 0, len(ps)+1)
+	done := false
+	for _, p := range ps {
+		if p.k == k {
+			out = append(out, rparam{k, v})
+			done = true
+		} else {
+			out = append(out, p)
+		}
+	}
+	if !done {
+		out = append(out, rparam{k, v})
+	}
+	return out
+}
+
 func (m zzRM) eval(q zzRReq, ps []rparam) zzRRes {
 	switch m.kind {
 	case 0:
@@ -86,7 +104,7 @@ func (m zzRM) eval(q zzRReq, ps []rparam) zzRRes {
 			seg := "/" + v + "/"
 			if len(q.path) >= len(seg) && q.path[:len(seg)] == seg {
 				if m.param != "" {
-					ps = withParam(ps, m.param, "/"+v)
+					ps = zzSetParam(ps, m.param, "/"+v)
 				}
 				return zzRRes{true, q.path[len(seg)-1:], ps}
 			}
@@ -99,7 +117,7 @@ func (m zzRM) eval(q zzRReq, ps []rparam) zzRRes {
 		adm := refResolve(cs, zzNormHost(q.host), nil)
 		if len(adm) > 0 {
 			for _, p := range adm[0].ps {
-				ps = withParam(ps, p.k, p.v)
+				ps = zzSetParam(ps, p.k, p.v)
 			}
 			return zzRRes{true, q.path, ps}
 		}
@@ -107,7 +125,7 @@ func (m zzRM) eval(q zzRReq, ps []rparam) zzRRes {
 		key := "version"
 		if v, ok := zzAcceptParam(q.accept, key); ok && zzContains(m.versions, v) {
 			if m.param != "" {
-				ps = withParam(ps, m.param, v)
+				ps = zzSetParam(ps, m.param, v)
 			}
 			return zzRRes{true, q.path, ps}
 		}
@@ -161,6 +179,8 @@ var zzC13Groups = [][]zzRM{
 	{zzAnd(zzPV("ver", "v1"), zzHS("a.co")), zzPV("ver", "v1"), {}},
 	{zzOr(zzAnd(zzPV("pv", "v2"), zzHV("hv", "2")), zzHS("{sub}.b.co", "b.co")), zzHV("hv", "1"), zzPV("pv", "v2", "v1")},
 	{zzAnd(zzHS("a.co", "{s}.co"), zzPV("", "v1"), zzHV("h", "3")), zzOr(zzHV("h", "9"), zzAnd(zzPV("p", "v1"), zzHS("zz"))), zzAnd(zzPV("p", "v"), zzPV("q", "v1"))},
+	// 3: a rejecting Hosts inside an Or that still accepts; the same parameter name captured at several nesting levels
+	{zzOr(zzHS("a.co"), zzPV("", "v1")), zzAnd(zzHV("ver", "1"), zzOr(zzAnd(zzPV("ver", "v2"), zzHS("zz")), zzPV("", "v2"))), zzOr(zzAnd(zzPV("ver", "v3"), zzHV("ver", "2")), zzHS("{ver}.b"))},
 }
 
 // ZZC13(n): n = group*100 + maxHost*10 + maxPath.
@@ -232,7 +252,7 @@ func ZZC13(n int) {
 			want = 10*i + 2
 		case len(p) >= 3 && p[:3] == "/x/":
 			want = 10*i + 1
-			wantPs = withParam(wantPs, "id", p[3:])
+			wantPs = zzSetParam(wantPs, "id", p[3:])
 		}
 		if p == "" || p == "*" {
 			return
